@@ -58,7 +58,7 @@ func Run(ctx *vrun.Ctx, prop string) error {
 		}
 	case "C17":
 		models = []ModelCfg{
-			{Name: "headers3", N: 3, Works: "{1,2}", Flaws: `{"context","connect"}`, Headers: true, Graph: true, MaxPaths: 4000},
+			{Name: "headers3", N: 3, Works: "{1}", Flaws: `{"context","connect"}`, Headers: true, Graph: true, MaxPaths: 3000},
 		}
 		if ctx.Thorough {
 			models = []ModelCfg{
@@ -76,6 +76,27 @@ func Run(ctx *vrun.Ctx, prop string) error {
 			}
 		} else if err := RunUtxo(ctx, 2, 4, 7, 2500); err != nil {
 			return err
+		}
+	}
+	if prop == "C17" {
+		qcs := []QueryCfg{
+			{Name: "small3", N: 3, Small: true, Kinds: allKinds},
+			{Name: "tall22", N: 26, H: 22, F: 9, L: 4, Kinds: allKinds},
+		}
+		maxGroups := 0
+		if ctx.Thorough {
+			qcs = []QueryCfg{
+				{Name: "small4", N: 4, Small: true, Kinds: allKinds},
+				{Name: "tall22", N: 26, H: 22, F: 9, L: 4, Kinds: allKinds},
+				{Name: "tall35", N: 40, H: 35, F: 20, L: 5, Kinds: allKinds},
+				{Name: "tall13", N: 25, H: 13, F: 0, L: 12, Kinds: allKinds},
+				{Name: "small5", N: 5, Small: true, Kinds: `{"locator","interval","h2h","fork"}`},
+			}
+		}
+		for _, qc := range qcs {
+			if err := RunQueries(ctx, qc, maxGroups); err != nil {
+				return err
+			}
 		}
 	}
 	if os.Getenv("VERIF_ONLY_UTXO") != "" {
